@@ -78,16 +78,33 @@ struct Cb2
 	int id, key;
 	void operator() (int a, int b) const { const int c = id, k = key; if(b != a + 1000) harnessError("second argument lost"); fired(c, k, a); }
 };
-// conditions: with and without the argument
+// conditions: with and without the argument.  Each condition object also keeps a count of its own evaluations INSIDE itself
+// (a condition may be a stateful callable: "true on my n-th evaluation"); the count is compared with a registry kept per
+// registration: if the library evaluates a COPY of the stored condition, the object's own state does not advance and the
+// line `cond-state-lost` appears in the trace (the model has no such line)
+int g_serial = 0;
+std::map<int, int> g_evals;
 struct CondA
 {
-	int id;
-	bool operator() (int a) const { const int p = id; const bool v = verdict(p); std::printf("cond %d %d %d\n", p, a, (int)v); return v; }
+	int id, serial;
+	mutable int seen;
+	CondA(int id, int serial) : id(id), serial(serial), seen(0) {}
+	bool operator() (int a) const {
+		const int p = id; const bool v = verdict(p); std::printf("cond %d %d %d\n", p, a, (int)v);
+		if(++seen != ++g_evals[serial]) std::printf("cond-state-lost %d\n", p);
+		return v;
+	}
 };
 struct CondN
 {
-	int id;
-	bool operator() () const { const int p = id; const bool v = verdict(p); std::printf("cond %d - %d\n", p, (int)v); return v; }
+	int id, serial;
+	mutable int seen;
+	CondN(int id, int serial) : id(id), serial(serial), seen(0) {}
+	bool operator() () const {
+		const int p = id; const bool v = verdict(p); std::printf("cond %d - %d\n", p, (int)v);
+		if(++seen != ++g_evals[serial]) std::printf("cond-state-lost %d\n", p);
+		return v;
+	}
 };
 
 enum Place { pAppend, pPrepend, pInsert };
@@ -231,8 +248,8 @@ struct RunnerT : Runner
 		switch(kind) {
 		case 0: return addPlain(pl, k, f, before);
 		case 1: return addCounter(pl, k, f, before, x, reg);
-		case 2: return addCond(pl, k, f, before, CondA{x}, reg);
-		default: return addCond(pl, k, f, before, CondN{x}, reg);
+		case 2: return addCond(pl, k, f, before, CondA(x, ++g_serial), reg);
+		default: return addCond(pl, k, f, before, CondN(x, ++g_serial), reg);
 		}
 	}
 	template <typename F>
